@@ -337,7 +337,26 @@ class Ctx:
             return False
         out_vo = os.path.join(self.work, os.path.basename(prop_file) + 'o')
         cmd = 'exec coqc -q -Q %s EmdV %s -o %s' % (COQ, os.path.join(COQ, prop_file), out_vo)
-        r = subprocess.run(['bash', '-c', cmd], capture_output=True, text=True, timeout=900)
+        # Print Assumptions over large proof terms is slow (20 s for the sift tie): its output is a function of the sources of
+        # the closure (make has just brought every .vo up to date with them), so it is cached under .work keyed by their hashes
+        hk = hashlib.sha1()
+        for f in sorted(files):
+            hk.update(f.encode() + b'\0' + hashlib.sha1(open(os.path.join(COQ, f), 'rb').read()).digest())
+        cache = os.path.join(VERIF, '.work', 'pa_cache', prop_file.replace('/', '_') + '.' + hk.hexdigest()[:16] + '.json')
+        r = None
+        if os.path.exists(cache):
+            try:
+                c = json.load(open(cache))
+                r = subprocess.CompletedProcess(cmd, 0, c['stdout'], '')
+            except Exception:
+                r = None
+        if r is None:
+            r = subprocess.run(['bash', '-c', cmd], capture_output=True, text=True, timeout=900)
+            if r.returncode == 0:
+                os.makedirs(os.path.dirname(cache), exist_ok=True)
+                with open(cache + '.tmp%d' % os.getpid(), 'w') as fh:
+                    json.dump(dict(stdout=r.stdout), fh)
+                os.replace(cache + '.tmp%d' % os.getpid(), cache)
         if r.returncode != 0:
             self.problem('proof-break', 'coqc', 'property file does not compile: ' + (r.stdout + r.stderr)[-1500:],
                          theorem=prop_file)
